@@ -21,8 +21,11 @@
                                                       join_mut call, read guard = temporary of `.read().unwrap().clone()`
                                                       in clause_var_assignments: no lock is held across statements)
      key index of new CRelFullIndex = DashMap<key, row number>; get_cloned / insert (overwrite) are atomic entry operations
-     other indices    CRelIndex = DashMap<key, Vec<row number>> / CRelNoIndex = sharded Vec<row number>:
-                      VEC-backed (the serial macro uses LatticeIndexType = HashMap<key, HashSet<row number>>);
+     other indices    since /repo d5edf35: CLatIndex = DashMap<key, HashSet<row number>>, SET-backed like the serial
+                      LatticeIndexType = HashMap<key, HashSet<row number>> ([setidx] = true: inserting a row number
+                      that is present changes nothing).  Before that repair: CRelIndex = DashMap<key, Vec<row number>> /
+                      CRelNoIndex = sharded Vec<row number>, VEC-backed ([setidx] = false), which listed a row once per
+                      insertion - see ParLatProofs.parlat_reindexed_once_before_fix_refuted.
                       `new`'s other indices are write-only during the iteration
      delta / total    frozen (ReadOnlyView) during the iteration
      key mutexes      Vec<Mutex<()>> indexed by hash(key) % len: different keys may share a mutex
@@ -56,6 +59,7 @@ Variable keqb : K -> K -> bool.                 (* equality of lattice keys (all
 Variable jm : V -> V -> V * bool.               (* Lattice::join_mut: new value of the receiver, changed flag *)
 Variable mx : K -> nat.                         (* hash(k) % number of key mutexes *)
 Variable kfirst : bool.                         (* update_indices inserts into the key index first / last *)
+Variable setidx : bool.                         (* the other indices are set-backed (CLatIndex, now) / vec-backed (before d5edf35) *)
 Variables dl tt : K -> option nat.              (* frozen key index of delta / total *)
 
 Fixpoint klook (k : K) (m : list (K * nat)) : option nat :=
@@ -104,6 +108,9 @@ Definition mk (R : list (K * V)) (nk : list (K * nat)) (ot hd : list nat) (ch : 
 Definition goto (st : pstate) (j : nat) (td : list (K * V)) (p : lpc) : pstate :=
   mk (lrows st) (lnkey st) (lother st) (lheld st) (lchg st) st j td p.
 
+(* index_insert of a row number into new's other indices *)
+Definition oins (i : nat) (ot : list nat) : list nat := if setidx && nmem i ot then ot else i :: ot.
+
 Definition release (m : nat) (hd : list nat) : list nat := filter (fun m' => negb (Nat.eqb m' m)) hd.
 
 Definition step (st : pstate) (j : nat) : pstate :=
@@ -128,9 +135,9 @@ Definition step (st : pstate) (j : nat) : pstate :=
              (if ch && negb nh then PIns1 k i false else PIdle)
       | PIns1 k i m =>                                                                               (* 3b / 6b *)
           if kfirst then mk (lrows st) ((k, i) :: lnkey st) (lother st) (lheld st) (lchg st) st j td (PIns2 k i m)
-          else mk (lrows st) (lnkey st) (i :: lother st) (lheld st) (lchg st) st j td (PIns2 k i m)
+          else mk (lrows st) (lnkey st) (oins i (lother st)) (lheld st) (lchg st) st j td (PIns2 k i m)
       | PIns2 k i m =>
-          if kfirst then mk (lrows st) (lnkey st) (i :: lother st) (lheld st) (lchg st) st j td (PFlag k m)
+          if kfirst then mk (lrows st) (lnkey st) (oins i (lother st)) (lheld st) (lchg st) st j td (PFlag k m)
           else mk (lrows st) ((k, i) :: lnkey st) (lother st) (lheld st) (lchg st) st j td (PFlag k m)
       | PFlag k m =>
           mk (lrows st) (lnkey st) (lother st) (lheld st) true st j td (if m then PUnlock k else PIdle)
